@@ -83,6 +83,19 @@ func genC16(t *rapid.T) *C16Case {
 			}
 		}
 	}
+	// a real workload carrying the name the tool reserves for its fake Ingress source
+	if len(w.Workloads) > 0 && rapid.IntRange(0, 5).Draw(t, "reserved") == 0 {
+		i := rapid.IntRange(0, len(w.Workloads)-1).Draw(t, "reservedwl")
+		clash := false
+		for j := range w.Workloads {
+			if j != i && w.Workloads[j].Ns == w.Workloads[i].Ns && w.Workloads[j].Name == "ingress-controller" {
+				clash = true
+			}
+		}
+		if !clash {
+			w.Workloads[i].Name = "ingress-controller"
+		}
+	}
 	cands := []string{"zzz", "ns1/zzz", "nsX/a", "ingress-controller"}
 	if rapid.IntRange(0, 3).Draw(t, "present") > 0 {
 		cands = nil
